@@ -88,7 +88,50 @@ def _check_cvc5(smt2, timeout_s, fmf=False):
     return r, time.time() - t0
 
 
+def _validated(smt2, r, timeout_s=15):
+    """A 'sat' on a query with strings and quantifiers is only believed when it survives validation: the model's values
+    for the string / Boolean / integer constants are asserted and the query is re-checked by the z3 API (the sequence
+    solver under MBQI has returned bogus models). Anything but a confirmed 'sat' downgrades to 'unknown'."""
+    if r != "sat" or "String" not in smt2:
+        return r
+    import re as _re
+    with tempfile.NamedTemporaryFile("w", suffix=".smt2", delete=False, dir=os.environ.get("PYVC_TMP", None)) as f:
+        f.write(smt2 + "\n(get-model)\n")
+        path = f.name
+    try:
+        p = subprocess.run(["z3-new", f"-T:{timeout_s}", "smt.ematching=false", path], capture_output=True, text=True, timeout=timeout_s + 5)
+        out = p.stdout
+    except (subprocess.TimeoutExpired, FileNotFoundError):
+        return "unknown"
+    finally:
+        os.unlink(path)
+    if not out.startswith("sat"):
+        return "unknown"
+    eqs = []
+    for m in _re.finditer(r'\(define-fun (\S+) \(\) (String|Bool|Int)\s+((?:"(?:[^"]|"")*")|true|false|-?\d+|\(- \d+\))\)', out):
+        name = m.group(1) if _re.match(r"^[A-Za-z_][\w!.@]*$", m.group(1)) else "|" + m.group(1) + "|"
+        eqs.append(f"(assert (= {name} {m.group(3)}))")
+    if not eqs:
+        return "unknown"
+    s = z3.Solver()
+    s.set("timeout", timeout_s * 1000)
+    try:
+        s.from_string(smt2.replace("(check-sat)", "") + "\n" + "\n".join(eqs))
+    except z3.Z3Exception:
+        return "unknown"
+    return "sat" if s.check() == z3.sat else "unknown"
+
+
 def _check_z3_cli_model(smt2, timeout_s):
+    r, dt = _check_z3_cli_model_raw(smt2, timeout_s)
+    if r == "sat":
+        t0 = time.time()
+        r = _validated(smt2, r)
+        dt += time.time() - t0
+    return r, dt
+
+
+def _check_z3_cli_model_raw(smt2, timeout_s):
     """z3 5.1 command line with e-matching off: the configuration that finds finite models fastest."""
     with tempfile.NamedTemporaryFile("w", suffix=".smt2", delete=False, dir=os.environ.get("PYVC_TMP", None)) as f:
         f.write(smt2)
